@@ -1541,3 +1541,71 @@ package gpbft
 //@     before[the_progress_is_read_with_one_atomic_load] arg(0) == &a.progression
 //@   at return 0
 //@     before[what_is_returned_is_that_one_snapshot_or_the_zero_progress] !called(Load, 2) && (res(Load, 1) != nil ==> arg(0) == *res(Load, 1))
+
+// ---- small predicates the protocol rules are written with (proved against their meaning, inlined at call sites) ----
+// A message can be spam exactly when nothing justifies it and it is for a later round.
+//@ func isSpammable
+//@   property C05 C07
+//@   modifies nothing
+//@   inlined
+//@   ensures[unjustified_and_past_round_zero] result == (msg.Justification == nil && msg.Vote.Round > 0)
+
+//@ func (*instance).terminated
+//@   property C01 C03 C07
+//@   modifies nothing
+//@   inlined
+//@   ensures[terminated_means_the_terminated_phase] result == (i.current.Phase == TERMINATED_PHASE)
+
+//@ func (*Participant).terminated
+//@   property C01 C03 C07
+//@   modifies nothing
+//@   inlined
+//@   ensures[terminated_means_an_instance_in_the_terminated_phase] result == (p.gpbft != nil && p.gpbft.current.Phase == TERMINATED_PHASE)
+
+// A converge value is usable only with a chain and a justification; another value wins only over an unusable one or
+// with a strictly lower rank (ties keep the incumbent, so the outcome does not depend on arrival order among equals).
+//@ func (*ConvergeValue).IsValid
+//@   property C07 C02
+//@   modifies nothing
+//@   inlined
+//@   ensures[needs_a_chain_and_a_justification] result ==> cv.Justification != nil && cv.Chain != nil && len(cv.Chain.TipSets) > 0
+//@   ensures[a_justified_chain_is_valid] cv.Justification != nil && cv.Chain != nil && len(cv.Chain.TipSets) > 0 ==> result
+
+//@ func (*ConvergeValue).IsOtherBetter
+//@   property C07 C02
+//@   modifies nothing
+//@   inlined
+//@   ensures[strictly_lower_rank_or_incumbent_unusable] result == (!res(IsValid, 1) || other.Rank < cv.Rank)
+
+// A chain is a candidate exactly when its key is in the candidate set.
+//@ func (*instance).isCandidate
+//@   property C07 C02
+//@   modifies auto
+//@   inlined
+//@   ensures[candidate_means_its_key_is_in_the_set] result == has(i.candidates, res(Key, 1)) && argOf(Key, 1, 0) == c
+
+// Rebroadcast is due when the phase timed out or the round is past the configured immediate-rebroadcast round.
+//@ func (*instance).shouldRebroadcast
+//@   property C07
+//@   modifies auto
+//@   inlined
+//@   ensures[phase_timeout_or_late_round] result == (res(phaseTimeoutElapsed, 1) || i.current.Round > i.participant.rebroadcastImmediatelyAfterRound)
+
+//@ func (*instance).resetRebroadcastParams
+//@   property C07
+//@   modifies auto
+//@   inlined
+//@   ensures[attempts_start_from_zero] i.rebroadcastAttempts == 0
+
+// A ticket is checked with the given verifier against the given key over the VRF input of exactly this network, beacon,
+// instance and round, and passes exactly when that verification succeeds.
+//@ func VerifyTicket
+//@   property C05 C14
+//@   modifies auto
+//@   maypanic
+//@   inlined
+//@   ensures[passes_exactly_when_the_signature_verifies] result == (res(Verify, 1) == nil)
+//@   at Verify 1
+//@     before[the_given_key_and_ticket_with_the_given_verifier] recv() == verifier && arg(0) == source && arg(2) == ticket
+//@     before[over_the_vrf_input_of_this_network_beacon_instance_and_round] arg(1) == res(vrfSerializeSigInput, 1) && argOf(vrfSerializeSigInput, 1, 0) == beacon && argOf(vrfSerializeSigInput, 1, 1) == instance && argOf(vrfSerializeSigInput, 1, 2) == round && argOf(vrfSerializeSigInput, 1, 3) == nn
+
